@@ -598,4 +598,137 @@ Proof. split.
     rewrite !elem_of_dom. destruct (a !! p) eqn:Ea; [left; eauto|]. destruct (b !! p) eqn:Eb; [right; eauto|].
     cbn in E. discriminate. Qed.
 
+
+(** no path of the run is a both-changed conflict *)
+Definition conflict_free (s : state) : Prop :=
+  forall x, rpath (scan (tA s) !! x) (scan (tB s) !! x) (base_at (arch s) x) <> Some ConfBoth.
+
+Lemma plan_ok_of s : conflict_free s -> plan_ok (scan (tA s)) (scan (tB s)) (arch s) (plan_of s).
+Proof. intros Hcf. split; [apply plan_fst_NoDup|]. intros p act Hin. apply plan_elem in Hin.
+  split; [|exact Hin]. intros ->. exact (Hcf p Hin). Qed.
+
+Lemma plan_ok_take a b base pl j : plan_ok a b base pl -> plan_ok a b base (take j pl).
+Proof. intros [Hnd Hpl]. split.
+  - rewrite fmap_take. eapply sublist_NoDup_1; [apply sublist_take|exact Hnd].
+  - intros p act Hin. apply Hpl. apply elem_of_take in Hin as (i & Hi & _). eapply elem_of_list_lookup_2; eauto. Qed.
+
+Lemma plan_ok_nc a b base pl : plan_ok a b base pl -> Forall (fun pa : K * action => pa.2 <> ConfBoth) pl.
+Proof. intros [_ Hpl]. apply Forall_forall. intros [p act] Hin. exact (proj1 (Hpl p act Hin)). Qed.
+
+Lemma run_per_path s : conflict_free s ->
+  wErr (wfin s) = false /\ wConf (wfin s) = 0 /\
+  forall x, (wA (wfin s) !! x, wB (wfin s) !! x) = pres (tA s !! x) (tB s !! x) (base_at (arch s) x) /\
+            wC (wfin s) !! x = Hh <$> wA (wfin s) !! x /\
+            Hh <$> wA (wfin s) !! x = Hh <$> wB (wfin s) !! x.
+Proof. intros Hcf.
+  destruct (foldl_apply_perpath _ _ _ _ (w0_of s) (plan_ok_of s Hcf) eq_refl) as (He & Hc & Hx).
+  { intros p _. cbn [w0_of wA wB]. unfold Bisync.scan. rewrite !lookup_fmap. auto. }
+  fold (wfin s) in He, Hc, Hx. split; [exact He|]. split; [exact Hc|]. intros x.
+  destruct (Hx x) as [Hin Hout]. destruct (decide (x ∈ (plan_of s).*1)) as [Hi|Hn]; [exact (Hin Hi)|].
+  destruct (Hout Hn) as (-> & -> & ->). cbn [w0_of wA wB wC].
+  assert (Hr : rpath (scan (tA s) !! x) (scan (tB s) !! x) (base_at (arch s) x) = None).
+  { destruct (rpath (scan (tA s) !! x) (scan (tB s) !! x) (base_at (arch s) x)) eqn:E; [|reflexivity].
+    exfalso. apply Hn. apply plan_fst_elem. unfold plan_of in *. rewrite E. discriminate. }
+  unfold pres. unfold Bisync.scan in Hr. rewrite !lookup_fmap in Hr. rewrite Hr. split; [reflexivity|].
+  apply rpath_none in Hr as [[Ha Hb]|(v & Ha & Hb & Hz)].
+  - rewrite Ha, Hb. split; [|reflexivity]. destruct (arch s) as [z|]; [|apply lookup_empty].
+    unfold prune. apply map_filter_lookup_None. right. intros d _ [Hs|Hs]; cbn in Hs;
+      unfold Bisync.scan in Hs; rewrite lookup_fmap in Hs; rewrite ?Ha, ?Hb in Hs; destruct Hs; discriminate.
+  - rewrite Ha, Hb. split; [|reflexivity]. destruct (arch s) as [z|]; [|discriminate]. cbn in Hz.
+    unfold prune. apply map_filter_lookup_Some. split; [exact Hz|]. left. cbn.
+    unfold Bisync.scan. rewrite lookup_fmap, Ha. eauto. Qed.
+
+(** the working state after the first j actions *)
+Definition wpre (s : state) (j : nat) : work :=
+  foldl (apply (scan (tA s)) (scan (tB s))) (w0_of s) (take j (plan_of s)).
+
+Lemma prefix_perpath s j : conflict_free s ->
+  forall x, (wA (wpre s j) !! x, wB (wpre s j) !! x) = (tA s !! x, tB s !! x) \/
+            (wA (wpre s j) !! x, wB (wpre s j) !! x) = (wA (wfin s) !! x, wB (wfin s) !! x).
+Proof. intros Hcf x. destruct (run_per_path s Hcf) as (_ & _ & Hfin). destruct (Hfin x) as (Hf & _).
+  destruct (foldl_apply_perpath _ _ _ _ (w0_of s) (plan_ok_take _ _ _ _ j (plan_ok_of s Hcf)) eq_refl) as (_ & _ & Hx).
+  { intros p _. cbn [w0_of wA wB]. unfold Bisync.scan. rewrite !lookup_fmap. auto. }
+  fold (wpre s j) in Hx. destruct (Hx x) as [Hin Hout].
+  destruct (decide (x ∈ (take j (plan_of s)).*1)) as [Hi|Hn].
+  - right. destruct (Hin Hi) as (-> & _). cbn [w0_of wA wB]. symmetry. exact Hf.
+  - left. destruct (Hout Hn) as (-> & -> & _). reflexivity. Qed.
+
+Lemma action_blocks_nc_len a b w pa : pa.2 <> ConfBoth -> length (action_blocks a b w pa) <= 1.
+Proof. unfold action_blocks. destruct (wErr w); [cbn; lia|]. destruct pa as [p act]. cbn [snd].
+  destruct act; try congruence; intros _; repeat case_match; cbn; lia. Qed.
+
+Lemma take_plan_blocks a b w pl m : Forall (fun pa : K * action => pa.2 <> ConfBoth) pl ->
+  exists j, take m (plan_blocks a b w pl) = plan_blocks a b w (take j pl).
+Proof. intros Hpl. revert w m; induction Hpl as [|pa pl Hpa Hpl IH]; intros w m.
+  { exists 0. cbn. apply take_nil. }
+  destruct m as [|m]; [exists 0; reflexivity|].
+  pose proof (action_blocks_nc_len a b w pa Hpa) as Hlen.
+  destruct (action_blocks a b w pa) as [|b1 [|b2 l]] eqn:E; cbn in Hlen; try lia.
+  - destruct (IH (apply a b w pa) (S m)) as (j & Hj). exists (S j). cbn [take plan_blocks]. rewrite E. exact Hj.
+  - destruct (IH (apply a b w pa) m) as (j & Hj). exists (S j). cbn [take plan_blocks]. rewrite E. cbn. rewrite Hj. reflexivity. Qed.
+
+Lemma crash_cases_nc s ae k : conflict_free s ->
+  let f := crash s ae k in
+  (exists j, fA f = wA (wpre s j) /\ fB f = wB (wpre s j) /\ farch f = arch s) \/
+  (fA f = wA (wfin s) /\ fB f = wB (wfin s) /\
+   (farch f = arch s \/ farch f = None \/ farch f = Some (wC (wfin s)))).
+Proof. intros Hcf. cbn zeta. pose proof (plan_ok_of s Hcf) as Hok. pose proof (plan_ok_nc _ _ _ _ Hok) as Hnc.
+  destruct (crash_shape s ae k) as [(Hk & m & b & j & Hm & Hj & ->)|(Hk & ->)].
+  - left. destruct (exec_partial_blk (blocks_fs (fs_of s) (take m (data_blocks s))) b j Hj) as (-> & -> & -> & _).
+    destruct (blocks_fs_proj (fs_of s) (take m (data_blocks s))) as (E & _ & _ & -> & _).
+    cbn [fs_of fA fB farch] in *. destruct (take_plan_blocks (scan (tA s)) (scan (tB s)) (w0_of s) _ m Hnc) as (j' & Hj').
+    fold (data_blocks s) in Hj'. rewrite Hj' in E |- *. exists j'.
+    pose proof (plan_blocks_apply_nc (scan (tA s)) (scan (tB s)) (w0_of s) (take j' (plan_of s)) (Forall_take _ j' _ Hnc)) as Hp.
+    unfold wtrees in Hp at 1. cbn [w0_of wA wB] in Hp. rewrite Hp in E. fold (wpre s j') in E. unfold wtrees in E.
+    injection E as -> ->. auto.
+  - right. destruct (blocks_fs_proj (fs_of s) (data_blocks s)) as (E & _ & _ & Ea & _).
+    cbn [fs_of fA fB farch] in *.
+    pose proof (plan_blocks_apply_nc (scan (tA s)) (scan (tB s)) (w0_of s) (plan_of s) Hnc) as Hp.
+    unfold wtrees in Hp at 1. cbn [w0_of wA wB] in Hp. fold (data_blocks s) in Hp. rewrite Hp in E.
+    fold (wfin s) in E. unfold wtrees in E. injection E as E1 E2.
+    unfold arch_part. destruct (wErr (wfin s)).
+    + rewrite take_nil. cbn [exec_all foldl]. rewrite E1, E2, Ea. auto.
+    + destruct (exec_arch_prefix (blocks_fs (fs_of s) (data_blocks s)) ae (wC (wfin s)) (k - length (data_steps s)))
+        as (-> & -> & _ & _ & [[A _]|[[A _]|[A _]]]); rewrite A, E1, E2, ?Ea; auto. Qed.
+
+(** the state a re-run starts from (staging files are not part of it) *)
+Definition recover (f : fs) : state := {| tA := fA f; tB := fB f; arch := farch f |}.
+
+Lemma recovery_nc s ae k : conflict_free s ->
+  let r := recover (crash s ae k) in
+  conflict_free r /\ run_state r = run_state s /\
+  (bisync_run r).1.2 = ExitOk /\ (bisync_run s).1.2 = ExitOk.
+Proof. intros Hcf. cbn zeta. set (r := recover (crash s ae k)).
+  destruct (run_per_path s Hcf) as (He & Hc & Hfin).
+  assert (Hx : forall x, rpath (Hh <$> tA r !! x) (Hh <$> tB r !! x) (base_at (arch r) x) <> Some ConfBoth /\
+                         pres (tA r !! x) (tB r !! x) (base_at (arch r) x) = (wA (wfin s) !! x, wB (wfin s) !! x)).
+  { intros x. destruct (Hfin x) as (Hf1 & _ & Hf3). unfold r, recover. cbn [tA tB arch].
+    destruct (crash_cases_nc s ae k Hcf) as [(j & -> & -> & ->)|(-> & -> & _)].
+    - destruct (prefix_perpath s j Hcf x) as [E|E]; injection E as -> ->.
+      + split; [|symmetry; exact Hf1]. specialize (Hcf x). unfold Bisync.scan in Hcf. rewrite !lookup_fmap in Hcf. exact Hcf.
+      + apply pres_same. exact Hf3.
+    - apply pres_same. exact Hf3. }
+  assert (Hcf' : conflict_free r).
+  { intros x. unfold Bisync.scan. rewrite !lookup_fmap. exact (proj1 (Hx x)). }
+  destruct (run_per_path r Hcf') as (He' & Hc' & Hfin').
+  assert (EA : wA (wfin r) = wA (wfin s)).
+  { apply map_eq. intros x. destruct (Hfin' x) as (Hf & _). rewrite (proj2 (Hx x)) in Hf. congruence. }
+  assert (EB : wB (wfin r) = wB (wfin s)).
+  { apply map_eq. intros x. destruct (Hfin' x) as (Hf & _). rewrite (proj2 (Hx x)) in Hf. congruence. }
+  assert (EC : wC (wfin r) = wC (wfin s)).
+  { apply map_eq. intros x. destruct (Hfin' x) as (_ & -> & _). destruct (Hfin x) as (_ & -> & _). rewrite EA. reflexivity. }
+  split; [exact Hcf'|]. split.
+  - rewrite !run_state_eq, He, He', EA, EB, EC. reflexivity.
+  - rewrite !run_exit_eq, He, He', Hc, Hc'. auto. Qed.
+
+(** for a conflict-free run each path is, in every crash state, as before the run
+    or as after it - on both sides together *)
+Lemma crash_paths_old_or_new_nc s ae k x : conflict_free s ->
+  let f := crash s ae k in
+  (fA f !! x, fB f !! x) = (tA s !! x, tB s !! x) \/
+  (fA f !! x, fB f !! x) = (tA (run_state s) !! x, tB (run_state s) !! x).
+Proof. intros Hcf. cbn zeta. rewrite run_state_eq. cbn [tA tB].
+  destruct (crash_cases_nc s ae k Hcf) as [(j & -> & -> & _)|(-> & -> & _)]; [|auto].
+  exact (prefix_perpath s j Hcf x). Qed.
+
 End P.
